@@ -23,7 +23,7 @@ ID = 'C19'
 LEVEL = 'exploration'
 TECHNIQUE = ('property-based testing: arbitrary text + grammar-based formula generation; differential oracle against an '
              'independent tokenize/ast translation executed with exec, plus isolation invariants')
-RULE = ('case = {kind, formulas[1..4], avals, a2}; kind "text": st.text() (NUL, CR, tabs, any unicode), very long lines, '
+RULE = ('case = {kind, formulas[1..8], avals, a2}; kind "text": st.text() (NUL, CR, tabs, any unicode), very long lines, '
         'python-looking character soup, and grammar output damaged by one random edit; kind "py": grammar of Python '
         'fragments (expressions, multi-statement bodies, def/return, try/except, comprehensions, lambdas, decorators, '
         'global, import, yield, class, multi-line/triple-quoted and f-strings, `$name` inside strings and comments, odd '
@@ -49,8 +49,8 @@ ASSUMPTIONS = ['documented validity rules followed (codebuilder.py comments): co
                'results that are not plain data (generators, classes, functions, sets, huge ints) are not compared',
                'grammar identifiers are limited to rec/$A/$G/$id, literals, builtins and locally imported names so the exec '
                'environment (builtins only) matches the formula environment; LAZY functions (IF, ISERR, PEEK) are not generated']
-BUDGET = {'quick': dict(examples=3000, shards=8, max_seconds=55),
-          'thorough': dict(examples=60000, shards=16, max_seconds=560)}
+BUDGET = {'quick': dict(examples=900, shards=8, max_seconds=55),
+          'thorough': dict(examples=20000, shards=16, max_seconds=560)}
 SHRINK_BUDGET = {'quick': 150, 'thorough': 500}
 
 GOOD = '$A + 1000'
@@ -450,7 +450,7 @@ def run_case(case):
   formulas = case.get('formulas')
   if not isinstance(formulas, list):
     formulas = []
-  formulas = [f for f in formulas if isinstance(f, str)][:6]
+  formulas = [f for f in formulas if isinstance(f, str)][:8]
   if not formulas:
     out['skipped'] = True
     return out
@@ -485,6 +485,10 @@ def run_case(case):
       out.cls('multi-line')
     if len(formula) > 1000:
       out.cls('very-long')
+    if '\r\n' in formula:
+      out.cls('CRLF')
+    if any(ord(ch) > 127 for ch in formula):
+      out.cls('non-ascii')
     in_str = 'dollar-in-string' in spec.features or 'dollar-in-comment' in spec.features
     if spec.status == 'valid' and in_str:
       nt += 1; out.cls('NT:valid+dollar-in-string-or-comment')
@@ -512,7 +516,7 @@ def _join(*parts):
 
 def string_literals():
   piece = st.sampled_from(['$A', '$G', '$id', '$', ' ', '#', '# $A', 'x', 'rec.A', '{', '}', '\\n', '\\\\', '\\t', 'é', '%s',
-                           ' $A ', 'return', '=', ':', '(', "\\'", '\\"', '0', 'λ$A'])
+                           ' $A ', 'return', '=', ':', '(', "\\'", '\\"', '0', 'λ$A', '😀', '日本'])
   content = st.lists(piece, max_size=5).map(''.join)
   single = st.tuples(st.sampled_from(['', '', 'r', 'u', 'b']), st.sampled_from(["'", '"']), content).map(
     lambda t: _quote(t[0], t[1], t[2]))
@@ -553,7 +557,7 @@ def _quote(prefix, q, content):
 
 
 ATOMS = ['$A', '$A', '$G', '$id', 'rec.A', 'rec.G', '0', '1', '2', '7', '-3', '0.5', '2.0', 'True', 'False', 'None',
-         '"$A"', "'$G is $A'", '[]', '""', '$A ', ' $G']
+         '"$A"', "'$G is $A'", '[]', '""', '$A ', ' $G', '"é€😀"', "'日本 $A'", '"😀" * $A', 'len("é😀") + $A']
 ERR_ATOMS = ['undefined_qq', '[][1]', '{}["k"]', 'int("x")', 'None + 1', '$A.nope', '$nosuch', 'rec.nosuch', '1 / 0',
              '"a" + 1', 'x', 'y', 'acc', 'gq_v', 'fn(2)', 'K.z', 'floor(2.5)', 'string.digits[:3]', 'list(chain([1], [$A]))']
 
@@ -612,7 +616,8 @@ INVALID_LINES = ['rec = 5', 'rec.A = 5', '$A = 5', '$G += 1', 'rec.A, x = 1, 2',
                  '  unexpected_indent = 1', '\tx = 1', 'with 1 as rec:\n  pass', '[rec for rec in [1]]', '(rec := 1)',
                  'try:\n  pass\nexcept Exception as rec:\n  pass', 'x = 1 $A', 'class', 'lambda: (yield)', '$é', 'é$A',
                  'f"{$A"', 'f"{}"', '"a" $A', 'print $A', 'x = 08', '$A.$G', 'return $', 'del $A', 'x = [\n1,\n', '$A +* 2',
-                 'break', 'continue', 'yield $A', 'x = yield', 'nonlocal_q = 1\n  y = 2']
+                 'break', 'continue', 'yield $A', 'x = yield', 'nonlocal_q = 1\n  y = 2', '$if', '$None + 1', '$return',
+                 'x = "😀" $A', '# é\n"😀" + = $A', 'match $A:\n  case 3:\n    x = 1', 'x: int', 'async def af():\n  return 1']
 
 
 def statements(expr):
@@ -639,6 +644,13 @@ def statements(expr):
     e.map(lambda a: 'class K:\n  z = %s' % a.replace('\n', ' ')),
     e.map(lambda a: 'assert %s, "msg $A"' % a.replace('\n', ' ')),
     st.just('raise ValueError("bad $A")'),
+    st.just('i = 0\nwhile i < 3:\n  i += 1\n  if i == 2:\n    continue  # $A\n  acc = i'),
+    e.map(lambda a: 'match %s:\n  case 3:\n    x = "three $A"\n  case str() as s:\n    x = s\n  case _:\n    x = "other"' % a.replace('\n', ' ')),
+    e.map(lambda a: 'x: int = %s' % a),
+    e.map(lambda a: 'fn = lambda *p, **q: (p, sorted(q))\ny = fn(*[%s], k=$A)' % a.replace('\n', ' ')),
+    e.map(lambda a: 'try:\n  y = 1\nfinally:\n  x = %s' % a.replace('\n', ' ')),
+    e.map(lambda a: 'async def af():\n  return %s' % a.replace('\n', ' ')),
+    e.map(lambda a: '"é😀"; x = %s' % a.replace('\n', ' ')),
     st.sampled_from(['# plain comment $A', '  # indented comment $G', '', '   ', 'pass', 'return', '\t', '#']),
     e.map(lambda a: 'yield %s' % a),
     string_literals().map(lambda s: 'x = %s' % s),
@@ -672,8 +684,11 @@ def py_formulas():
       lines = [margin + lines[0]] + lines[1:]
     elif how == 4:     # all but the first
       lines = [lines[0]] + [margin + ln for ln in lines[1:]]
-    return head + '\n'.join(lines) + tail
-  return st.tuples(base, st.sampled_from([0, 0, 0, 1, 1, 2, 3, 4]), st.sampled_from([' ', '  ', '    ', '\t', '  \t']),
+    text = head + '\n'.join(lines) + tail
+    if how == 5:       # pasted with Windows line ends
+      text = text.replace('\n', '\r\n')
+    return text
+  return st.tuples(base, st.sampled_from([0, 0, 0, 0, 1, 1, 2, 3, 4, 5]), st.sampled_from([' ', '  ', '    ', '\t', '  \t']),
                    st.sampled_from(['', '', '', '\n', '\n\n', '  ', ' \\', '\n  ', ' # $A', '\n# $G']),
                    st.sampled_from(['', '', '', '\n', '# c $A\n', '  \n', '\n\n'])).map(shape)
 
@@ -704,6 +719,6 @@ def text_formulas():
 
 def strategy(tier):
   common = {'avals': st.lists(st.integers(-3, 9), min_size=2, max_size=3), 'a2': st.integers(-3, 9)}
-  py = st.fixed_dictionaries(dict(common, kind=st.just('py'), formulas=st.lists(py_formulas(), min_size=1, max_size=4)))
-  tx = st.fixed_dictionaries(dict(common, kind=st.just('text'), formulas=st.lists(text_formulas(), min_size=1, max_size=4)))
+  py = st.fixed_dictionaries(dict(common, kind=st.just('py'), formulas=st.lists(py_formulas(), min_size=1, max_size=8)))
+  tx = st.fixed_dictionaries(dict(common, kind=st.just('text'), formulas=st.lists(text_formulas(), min_size=1, max_size=8)))
   return st.integers(0, 9).flatmap(lambda k: tx if k < 2 else py)
